@@ -173,6 +173,9 @@ Section Reach.
     - apply on_input_sreach. intros a; split; reflexivity.
     - apply on_input_sreach. intros a; destruct hk; split; reflexivity.
     - apply on_input_sreach. intros a; split; reflexivity.
+    - apply on_input_sreach. intros a; apply apply_update_frame.
+    - apply on_input_sreach. intros a; split; reflexivity.
+    - apply on_input_sreach. intros a; split; reflexivity.
     - apply update_input_sreach.
     - unfold finalize_mut.
       pose proof (fin_mut_loop_sreach mall (seq 0 (length (p_inputs st))) st []) as H.
